@@ -23,7 +23,7 @@ func init() {
 			"(4) no store into a field of cloudprovider.InstanceType/Offering/InstanceTypeOverhead in the cone except the audited sync.Once memo; InstanceTypeOptions is only ever assigned freshly built slices and no in-place sorter is applied to the provider's instance-type map; " +
 			"(5) the informer-cache aliases (UnsafeDisableDeepCopy reads) inside the cone are the audited ones and nothing stores through the aliased objects; capacity-buffer virtual pods are copied before scheduling; the pod being relaxed is a DeepCopy.",
 		NotCovered: []string{"mutation through aliasing that the field-path analysis cannot see (e.g. via reflection or unsafe)", "memory reachable only through dependency code", "events published by a simulation (allowed by the property)"},
-		Rules: c18Rules,
+		Rules:      c18Rules,
 	})
 }
 
@@ -288,8 +288,8 @@ func c18CacheAliases(w *core.World, id string) []core.Result {
 	// audited object kinds: each is read uncopied only to derive a label selector, and the derived selector never aliases
 	// the input (maps.Clone / requirementsFrom / DeepCopy). Keyed by the kind read, not by the reading function's name.
 	audited := map[string]string{
-		"corev1.ServiceList":           "services are only read for Spec.Selector; the selector is copied before it is stamped on a pod",
-		"corev1.ReplicationController": "only Spec.Selector is read and maps.Clone'd",
+		"corev1.ServiceList":             "services are only read for Spec.Selector; the selector is copied before it is stamped on a pod",
+		"corev1.ReplicationController":   "only Spec.Selector is read and maps.Clone'd",
 		"k8s.io/api/apps/v1.ReplicaSet":  "only Spec.Selector is read, flattened by requirementsFrom into fresh values",
 		"k8s.io/api/apps/v1.StatefulSet": "only Spec.Selector is read, flattened by requirementsFrom into fresh values",
 	}
